@@ -13,4 +13,4 @@ CONSTANTS NP = 1
           Msgs <- MCMsgs
 PROPERTY EveryAcceptedWantAnswered
 INVARIANTS TypeOK BlockOnlyIfPresentWantedPermitted HaveOnlyIfPresent DontHaveOnlyIfAbsentAndAsked
-           LedgerBounded NoGhostWhenIdeal QueueBounded PresentWantHasTask EvictionOrder
+           LedgerBounded NoGhostWhenIdeal QueueBounded PresentWantHasTask UpgradeKeepsBlockTask EvictionOrder
